@@ -1,0 +1,11 @@
+//go:build !verif
+
+// Package verifhook provides verification hook points. Without the `verif`
+// build tag every hook is an empty function.
+package verifhook
+
+// Enabled reports whether the hooks are compiled in.
+const Enabled = false
+
+// At marks a hook point.
+func At(_ string, _ ...interface{}) {}
